@@ -14,14 +14,14 @@ def prop(pid, **kw):
 
 prop('C04', bounded=['validation_d'],
      explanation='contract obligations on the validator closures, generated from the real AST and discharged by SMT')
-prop('C07', explanation='contracts on check_encoding_chars, _split_msh, get_message_info, default resolvers')
+prop('C07', bounded=['roundtrip', 'textual'], explanation='contracts on check_encoding_chars, _split_msh, get_message_info, default resolvers')
 prop('C09', bounded=['histories'], explanation='functional postconditions of the ElementList mutators against the ordered-list model')
 prop('C10', bounded=['histories'], explanation='back-pointer and container-consistency postconditions of the attach path')
 prop('C11', bounded=['histories'], explanation='frame clauses of the read paths and the traversal (temporary parent) path')
 prop('C12', bounded=['histories'], explanation='exceptional postconditions (raises => view unchanged) of the mutators')
 prop('C13', bounded=['datatypes'], explanation='contracts on the format-selection helpers')
-prop('C14', explanation='contracts on name resolution (find_child_reference interface, _find_name, child_at_index)')
-prop('C15', explanation='raises clauses: only declared exception classes escape the header functions')
+prop('C14', bounded=['names'], explanation='contracts on name resolution (find_child_reference interface, _find_name, child_at_index)')
+prop('C15', bounded=['robust'], explanation='raises clauses: only declared exception classes escape the header functions')
 
 prop('C01', ground=['tables:twf_segments', 'tables:twf_datatypes'], bounded=['roundtrip'],
      explanation='table preconditions of the round-trip lemma instantiated at every row (ground, exhaustive); decoder / '
@@ -41,3 +41,15 @@ prop('C05', bounded=['validation_d', 'histories'],
                  'instances validated, STRICT / TOLERANT lockstep in the bounded drivers')
 prop('C18', bounded=['validation_d'],
      explanation='no-op profile lemma on generated instances (bounded); reference threading contracts to follow')
+
+prop('C08', bounded=['names'],
+     explanation='group finding on generated conforming instances (bounded); the recursive search is under contract')
+prop('C16', bounded=['mllp_d'],
+     explanation='framing contract of to_mllp, routing contract of _route_message; the real server on loopback for every '
+                 'short splitting of the frame and concurrent clients (bounded). Interleavings are not explored.')
+prop('C17', bounded=['robust'],
+     explanation='reads-clauses on the default resolvers (a default is consulted only when the argument is None) + '
+                 'package-wide forwarding pass over the AST + call corpus under every default configuration (bounded)')
+prop('C19', bounded=['robust'],
+     explanation='sufficient frame condition: no function reachable from parse/build/encode/validate writes a process-wide '
+                 'object (ownership pass over the AST + digest of the process-wide objects around a call corpus + threads)')
